@@ -6,8 +6,16 @@
                            :: ("nil" | "map") :: dec #tags :: k1 :: v1 :: ... (sorted by key)
                            :: Nick :: Ident :: Host :: Src :: Cmd :: Raw :: dec #Args :: Args...
                            :: Text :: Target :: Public ("t"/"f"; empty when the call panicked)
-   kind "session": input = "session" :: tracking ("0"/"1") :: raw lines sent by the server end
+   kind "session": input = "session" :: mode (decimal; bit 0 = state tracking, bit 1 = chunked
+                   delivery — both invisible to the sequential model) :: raw lines sent by the server end
                    obs   = ["alive"] | "dead" :: details
+                   The executable model is evaluated on the lines of at most 9000 bytes only (the
+                   IRCv3 maximum is 8191+512): Lib/GoBytes.trim reverses lists and the extracted
+                   [rev] is quadratic, a 70 000-byte line costs minutes.  The prediction "alive" for
+                   ALL lines, of any length, is the theorem C02_session_alive; [parse] has no
+                   length-dependent branch.  That the READER hands over a whole line whatever its
+                   length (bufio.ReadString) is an assumption of the model that only this dynamic
+                   part samples (sessions contain lines up to ~70 000 bytes).
    ORACLE (gating): nothing panicked / the client still answers ([C02_ok], [C02_session_ok]).
    AGREEMENT (model drift): for inputs made of bytes < 0x80 the whole observation must equal the
    model's; for inputs containing a byte >= 0x80 (Go's strings.Fields / ToUpper / TrimSpace are
@@ -48,8 +56,9 @@ Definition model_parse (raw : bytes) : list bytes :=
       ++ [val_bytes (text l); val_bytes (target l); val_bool (public l)]
   end.
 
+Definition short_line (l : bytes) : bool := len l <=? 9000.
 Definition model_session (lines : list bytes) : list bytes :=
-  [if session_alive (fun _ => []) lines then tag_alive else tag_dead].
+  [if session_alive (fun _ => []) (filter short_line lines) then tag_alive else tag_dead].
 
 Definition model_C02 (i : list bytes) : list bytes :=
   if beq (get i 0) k_parse then model_parse (get i 1)
